@@ -38,6 +38,7 @@ type World struct {
 	boxSorts map[Sort]bool
 	regContracts map[*ssa.Function]*FuncContract
 	tags     map[string]int
+	tagTypes []types.Type
 	strIDs   map[string]int
 	strList  []string
 
@@ -339,6 +340,7 @@ func (w *World) tagOf(t types.Type) int {
 	}
 	v := len(w.tags) + 1
 	w.tags[k] = v
+	w.tagTypes = append(w.tagTypes, t)
 	return v
 }
 
